@@ -48,6 +48,11 @@ type w2Consumer struct {
 	SlowUs    int    `json:"slow_us"`    // per-message delay for slow consumers
 	StopAfter int    `json:"stop_after"` // stop reading after this many messages (mode stop)
 	DetachMs  int    `json:"detach_ms"`  // when DespawnOutput is called (-1: never)
+	// Churn > 0: instead of one attachment, attach / read for HoldUs / stop reading / detach, Churn times in a
+	// row (what a device that is unplugged and replugged, or a configuration reload, does)
+	Churn  int `json:"churn,omitempty"`
+	HoldUs int `json:"hold_us,omitempty"`
+	GapUs  int `json:"gap_us,omitempty"`
 }
 
 type w2Ops struct {
@@ -101,6 +106,21 @@ func genW2(r *simrt.Rng, tier string) *w2Ops {
 		}
 		o.Consumers = append(o.Consumers, c)
 	}
+	if r.Chance(0.3) {
+		// churn: several consumers attaching and detaching in quick succession while traffic flows
+		o.Profile = "churn"
+		for i := range o.Consumers {
+			c := &o.Consumers[i]
+			c.Churn = r.Range(2, 7)
+			c.HoldUs = []int{0, 50, 300, 2000}[r.Intn(4)]
+			c.GapUs = []int{0, 0, 30, 500}[r.Intn(4)]
+			c.StartMs = r.Intn(5)
+		}
+		o.InDelays = []int{0, 0, 50, 200}
+		if o.InN < 40 {
+			o.InN = 40 + r.Intn(60)
+		}
+	}
 	if o.Profile == "stalled-consumer" {
 		c := &o.Consumers[r.Intn(len(o.Consumers))]
 		c.Mode = "stop"
@@ -122,6 +142,7 @@ type w2ConsState struct {
 	despawnT0 time.Duration
 	despawnT1 time.Duration
 	got       []w2Recv
+	mode      string
 	reading   bool // still reading at the end (not stopped)
 	id        int64
 	err       string
@@ -245,14 +266,73 @@ func runW2(t *testing.T, job *Job, seed uint64, rp *Replay) RunOut {
 		})
 		for ci, c := range ops.Consumers {
 			ci, c := ci, c
-			cs := &w2ConsState{spawned: -1, despawn0: -1, despawn1: -1}
+			cs := &w2ConsState{spawned: -1, despawn0: -1, despawn1: -1, mode: c.Mode}
+			w.mu.Lock()
 			w.cons = append(w.cons, cs)
+			w.mu.Unlock()
 			pmu.Lock()
 			pending++
 			pmu.Unlock()
 			simrt.Go(fmt.Sprintf("consumer%d", ci), func() {
 				defer done()
 				simrt.Sleep(time.Duration(c.StartMs) * time.Millisecond)
+				if c.Churn > 0 {
+					// the first cycle uses the pre-allocated record, later cycles append their own
+					for cyc := 0; cyc < c.Churn; cyc++ {
+						st := cs
+						if cyc > 0 {
+							st = &w2ConsState{spawned: -1, despawn0: -1, despawn1: -1}
+							w.mu.Lock()
+							w.cons = append(w.cons, st)
+							w.mu.Unlock()
+						}
+						st.mode = "churn"
+						id, ch, err := fan.SpawnOutput()
+						if err != nil {
+							st.err = err.Error()
+							return
+						}
+						w.mu.Lock()
+						st.id, st.spawned, st.reading = id, simrt.Steps(), true
+						w.mu.Unlock()
+						until := simrt.Now() + time.Duration(c.HoldUs)*time.Microsecond
+						for simrt.Now() < until {
+							ev, ok, closed := simrt.TryRecv(ch)
+							if closed {
+								break
+							}
+							if ok {
+								w.mu.Lock()
+								st.got = append(st.got, w2Recv{msgSeq(ev), simrt.Steps()})
+								w.mu.Unlock()
+							} else {
+								simrt.Sleep(20 * time.Microsecond)
+							}
+						}
+						// stop reading, then remove (the order a real device follows)
+						w.mu.Lock()
+						st.reading = false
+						st.despawn0, st.despawnT0 = simrt.Steps(), simrt.Now()
+						w.mu.Unlock()
+						simrt.Yield("h.despawn")
+						err = fan.DespawnOutput(id)
+						w.mu.Lock()
+						st.despawn1, st.despawnT1 = simrt.Steps(), simrt.Now()
+						if err != nil {
+							st.err = err.Error()
+						}
+						w.mu.Unlock()
+						for ev := range ch {
+							w.mu.Lock()
+							st.got = append(st.got, w2Recv{msgSeq(ev), simrt.Steps()})
+							w.mu.Unlock()
+						}
+						if c.GapUs > 0 {
+							simrt.Sleep(time.Duration(c.GapUs) * time.Microsecond)
+						}
+					}
+					return
+				}
 				id, ch, err := fan.SpawnOutput()
 				if err != nil {
 					cs.err = err.Error()
@@ -389,7 +469,7 @@ func (w *w2World) check(ops *w2Ops) *Vio {
 	// ---- liveness of removal ----
 	for i, cs := range w.cons {
 		if cs.despawn0 >= 0 && cs.despawn1 < 0 {
-			return mk("despawn_never_returns", fmt.Sprintf("consumer %d (%s): DespawnOutput invoked at t=%v has not returned when the run ended (t=%v)", i, ops.Consumers[i].Mode, cs.despawnT0, simrt.Now()))
+			return mk("despawn_never_returns", fmt.Sprintf("consumer %d (%s): DespawnOutput invoked at t=%v has not returned when the run ended (t=%v)", i, cs.mode, cs.despawnT0, simrt.Now()))
 		}
 		if cs.despawn1 >= 0 && cs.despawnT1-cs.despawnT0 > 5*time.Second {
 			return mk("despawn_slow", fmt.Sprintf("consumer %d: DespawnOutput took %v", i, cs.despawnT1-cs.despawnT0))
@@ -475,7 +555,7 @@ func (w *w2World) check(ops *w2Ops) *Vio {
 		// upper end of what it must have: messages completely broadcast while it was attached
 		mustHi := -1
 		if cs.despawn0 < 0 {
-			if cs.reading || ops.Consumers[i].Mode != "stop" {
+			if cs.reading || cs.mode != "stop" {
 				mustHi = injected - 1 // attached and reading until the end: everything injected
 			}
 		} else {
@@ -488,7 +568,7 @@ func (w *w2World) check(ops *w2Ops) *Vio {
 				}
 			}
 		}
-		if ops.Consumers[i].Mode == "stop" && cs.despawn0 < 0 {
+		if cs.mode == "stop" && cs.despawn0 < 0 {
 			mustHi = -1
 		}
 		if first >= 0 && mustHi >= first {
@@ -497,7 +577,7 @@ func (w *w2World) check(ops *w2Ops) *Vio {
 				if a >= 0 {
 					have = fmt.Sprintf("#%d..#%d", a, b)
 				}
-				return mk("in_incomplete", fmt.Sprintf("consumer %d (%s, attached at step %d, despawn at %d) must have #%d..#%d, has %s; %d injected", i, ops.Consumers[i].Mode, cs.spawned, cs.despawn0, first, mustHi, have, injected))
+				return mk("in_incomplete", fmt.Sprintf("consumer %d (%s, attached at step %d, despawn at %d) must have #%d..#%d, has %s; %d injected", i, cs.mode, cs.spawned, cs.despawn0, first, mustHi, have, injected))
 			}
 		}
 		if cs.despawn1 >= 0 && b >= 0 {
